@@ -371,6 +371,19 @@ func c14(args []string) error {
 				return nil
 			})
 			add(alpha, names, seqs, "ListMutationsComparedToReferenceSequence", fmt.Sprintf("OpMutList %s %s", coqZ(ri), coqZ(si)), x)
+			// the count on the same pair of rows
+			y := res{l1: []int{}, l2: []int{}, rowsN: []string{}, rowsS: []string{}}
+			y.class, _ = guarded(5e9, func() error {
+				ref, _ := a.Sequence(ri)
+				s, _ := a.Sequence(si)
+				n, e := s.NumMutationsComparedToReferenceSequence(alpha, ref)
+				y.num = fmt.Sprint(n)
+				return e
+			})
+			if y.class != OutOk {
+				y.num = "0"
+			}
+			add(alpha, names, seqs, "NumMutationsComparedToReferenceSequence", fmt.Sprintf("OpMutVsRef %s %s", coqZ(ri), coqZ(si)), y)
 		}
 	}
 	// EqualOrCompatible on all code pairs 0..16
